@@ -586,9 +586,14 @@ impl Runtype {
     ) -> anyhow::Result<Runtype> {
         match self.kind {
             RuntypeKind::AllOf(vs) => {
-                let semantic =
-                    Runtype::new(RuntypeKind::AllOf(vs.clone())).to_sem_type(validators, ctx)?;
-                let is_empty = semantic.is_empty(ctx)?;
+                // a member that cannot be converted back (a helper definition of a recursive type that is itself a
+                // union) is kept: only members known to be empty are removed
+                let is_empty = match Runtype::new(RuntypeKind::AllOf(vs.clone()))
+                    .to_sem_type(validators, ctx)
+                {
+                    Ok(semantic) => semantic.is_empty(ctx)?,
+                    Err(_) => false,
+                };
                 if is_empty {
                     return Ok(Runtype::never());
                 }
@@ -605,17 +610,16 @@ impl Runtype {
                 Ok(Runtype::all_of(vs))
             }
             RuntypeKind::AnyOf(vs) => {
-                let vs = vs
-                    .into_iter()
-                    .map(|it| it.to_sem_type(validators, ctx).map(|r| (it, r)))
-                    .collect::<Result<Vec<_>>>()?;
                 let mut new_vs = vec![];
                 for v in vs.into_iter() {
-                    let is_empty = v.1.is_empty(ctx)?;
+                    let is_empty = match v.to_sem_type(validators, ctx) {
+                        Ok(semantic) => semantic.is_empty(ctx)?,
+                        Err(_) => false,
+                    };
                     if is_empty {
                         continue;
                     }
-                    new_vs.push(v.0);
+                    new_vs.push(v);
                 }
 
                 let vs = new_vs
